@@ -267,13 +267,13 @@ void session_interface::load_data(data_type &data,std::string const &s)
 
 
 
-void session_interface::update_exposed(bool force)
+void session_interface::update_exposed(bool force,bool resend)
 {
 	
 	std::set<std::string> removed;
 	for(data_type::iterator p=data_.begin();p!=data_.end();++p) {
 		data_type::iterator p2=data_copy_.find(p->first);
-		if(p->second.exposed && (force || p2==data_copy_.end() || !p2->second.exposed || p->second.value!=p2->second.value)){
+		if(p->second.exposed && (force || resend || p2==data_copy_.end() || !p2->second.exposed || p->second.value!=p2->second.value)){
 			set_session_cookie(cookie_age(),p->second.value,p->first);
 		}
 		else if(!p->second.exposed && ((p2!=data_copy_.end() && p2->second.exposed) || force)) {
@@ -383,10 +383,10 @@ void session_interface::save()
 	set_session_cookie(cookie_age(),temp_cookie_);
 	temp_cookie_.clear();
 
-	// the session cookie has just been given a new lifetime; in "renew" mode the exposed-value cookies
-	// must get the same lifetime, otherwise the browser drops them while the session is still alive
-	// (in "fixed" mode the lifetime is unchanged, in "browser" mode there is none)
-	update_exposed(force_update || how_==renew);
+	// the session cookie has just been given a new lifetime (in "fixed" mode only for a new or reset session):
+	// the exposed-value cookies must be sent again with the same lifetime, otherwise the browser drops them
+	// while the session is still alive or keeps them after the session cookie became a browser-session cookie
+	update_exposed(force_update, new_session_ || how_!=fixed);
 	saved_=true;
 }
 
